@@ -30,7 +30,7 @@ def chunks(tier, seed):
                                          names=hist.ALLNAMES[:3 + (k + i) % 2],
                                          # every fourth history goes through dd.autoref: the external references are then the
                                          # live Function objects (anything else that holds a count shows up in the ledger)
-                                         mode='autoref' if (k + i) % 4 == 3 else 'bdd') for i in range(per)]))
+                                         mode='autoref' if (k + i) % 4 == 3 and k + i < 4000 else 'bdd') for i in range(per)]))
     L = 3 if tier == 'quick' else 4
     alpha = ['build', 'ite', 'drop', 'gc', 'swap', 'gcroots', 'fork']
     seqs = [list(s) for s in itertools.product(alpha, repeat=L)]
